@@ -1,3 +1,3 @@
 From Coq Require Import Extraction ExtrOcamlBasic NArith List.
 From C10 Require Import Model.
-Extraction "Model.ml" fm_step fm_step_conv po_step p_name p_data p_query N.of_nat N.to_nat.
+Extraction "Model.ml" fm_step fm_step_conv po_step po2_step p2_view p2_h p2_a p2_b p_name p_data p_query N.of_nat N.to_nat.
